@@ -511,6 +511,13 @@ func (nfs *Nfs) NFSPROC3_SYMLINK(args nfstypes.SYMLINK3args) nfstypes.SYMLINK3re
 	var reply nfstypes.SYMLINK3res
 	util.DPrintf(1, "NFS SymLink %v\n", args)
 
+	// The target is written by the creating transaction: like the data of
+	// a WRITE it must fit in the log.  (A transaction the journal refuses
+	// also makes the journal forget how far COMMIT has to flush.)
+	if uint64(len(args.Symlink.Symlink_data)) > wtmax {
+		reply.Status = nfstypes.NFS3ERR_NAMETOOLONG
+		return reply
+	}
 	data := []byte(args.Symlink.Symlink_data)
 	op, err, fh3, fattr := nfs.doCreate(args.Where.Dir, args.Where.Name, nfstypes.NF3LNK, data)
 	if err != nfstypes.NFS3_OK {
